@@ -30,8 +30,10 @@ import (
 	"os"
 	"path/filepath"
 	"regexp"
+	"runtime/pprof"
 	"sort"
 	"strings"
+	"sync"
 	"sync/atomic"
 	"time"
 
@@ -70,15 +72,53 @@ func (tc *typeCase) key() string {
 }
 
 type env struct {
-	c      *core.Ctx
-	ctx    context.Context
-	spills atomic.Int64 // hook fuse.Fuser.spill
-	defMem int
+	c       *core.Ctx
+	ctx     context.Context
+	spills  atomic.Int64 // hook fuse.Fuser.spill
+	defMem  int
+	buildMu sync.Mutex // fuse.MemMaxBytes is read when the operator is built
+}
+
+// report collects what one case has to tell core.Ctx.  Cases are replayed by
+// several goroutines; their reports are flushed in case order so that the
+// run (which witness is kept per signature, the samples, the drift list) is
+// deterministic for a seed.
+type report struct {
+	acts []func(c *core.Ctx)
+	nviol int
+}
+
+func (r *report) violate(sig, what string, w witness) {
+	r.nviol++
+	r.acts = append(r.acts, func(c *core.Ctx) { c.Violate(sig, what, w) })
+}
+func (r *report) drift(format string, a ...any) {
+	msg := fmt.Sprintf(format, a...)
+	r.acts = append(r.acts, func(c *core.Ctx) { c.Drift("%s", msg) })
+}
+func (r *report) inconclusive(format string, a ...any) {
+	msg := fmt.Sprintf(format, a...)
+	r.acts = append(r.acts, func(c *core.Ctx) { c.Inconclusive("%s", msg) })
+}
+func (r *report) eval(key string, nontrivial bool) {
+	r.acts = append(r.acts, func(c *core.Ctx) { c.Eval(key, nontrivial) })
+}
+func (r *report) add(key string, n int64) {
+	r.acts = append(r.acts, func(c *core.Ctx) { c.Add(key, n) })
+}
+func (r *report) sample(v any) {
+	r.acts = append(r.acts, func(c *core.Ctx) { c.Sample(v) })
+}
+func (r *report) flush(c *core.Ctx) {
+	for _, a := range r.acts {
+		a(c)
+	}
+	r.acts = nil
 }
 
 // runFlow runs program over vals on the real runtime (compiled and optimized
 // as the product does) and returns copies of the output values.
-func (e *env) runFlow(zctx *zed.Context, program string, vals []zed.Value) (out []zed.Value, err error) {
+func (e *env) runFlow(zctx *zed.Context, program string, vals []zed.Value, mem int) (out []zed.Value, err error) {
 	ctx, cancel := context.WithTimeout(e.ctx, 60*time.Second)
 	defer cancel()
 	defer func() {
@@ -99,7 +139,12 @@ func (e *env) runFlow(zctx *zed.Context, program string, vals []zed.Value) (out 
 	if err := job.Optimize(); err != nil {
 		return nil, err
 	}
-	if err := job.Build(zio.Reader(zbuf.NewArray(append([]zed.Value(nil), vals...)))); err != nil {
+	e.buildMu.Lock()
+	fuse.MemMaxBytes = mem // read by fuse.New while the flow graph is built
+	err = job.Build(zio.Reader(zbuf.NewArray(append([]zed.Value(nil), vals...))))
+	fuse.MemMaxBytes = e.defMem
+	e.buildMu.Unlock()
+	if err != nil {
 		return nil, err
 	}
 	p := job.Puller()
@@ -126,7 +171,6 @@ func (e *env) runFlow(zctx *zed.Context, program string, vals []zed.Value) (out 
 type observation struct {
 	outs    []zed.Value
 	aggType zed.Type
-	spills  int64
 }
 
 func (e *env) observe(zctx *zed.Context, ins []input, mem int) (*observation, error) {
@@ -134,15 +178,12 @@ func (e *env) observe(zctx *zed.Context, ins []input, mem int) (*observation, er
 	for i := range ins {
 		vals[i] = ins[i].val
 	}
-	fuse.MemMaxBytes = mem
-	defer func() { fuse.MemMaxBytes = e.defMem }()
-	before := e.spills.Load()
-	outs, err := e.runFlow(zctx, "fuse", vals)
+	outs, err := e.runFlow(zctx, "fuse", vals, mem)
 	if err != nil {
 		return nil, fmt.Errorf("fuse: %w", err)
 	}
-	o := &observation{outs: outs, spills: e.spills.Load() - before}
-	agg, err := e.runFlow(zctx, "fuse(this)", vals)
+	o := &observation{outs: outs}
+	agg, err := e.runFlow(zctx, "fuse(this)", vals, mem)
 	if err != nil {
 		return nil, fmt.Errorf("fuse(this): %w", err)
 	}
@@ -178,8 +219,7 @@ func formatAll(vals []zed.Value) []string {
 
 // oracle evaluates the property on one real run.  It returns the number of
 // violations it reported (known findings included).
-func (e *env) oracle(ins []input, inTypes []zed.Type, o *observation, w witness) int {
-	c := e.c
+func (e *env) oracle(r *report, ins []input, inTypes []zed.Type, o *observation, w witness) int {
 	n := 0
 	w.AggType = zson.FormatType(o.aggType)
 	for i := range ins {
@@ -188,7 +228,7 @@ func (e *env) oracle(ins []input, inTypes []zed.Type, o *observation, w witness)
 	w.Outputs = formatAll(o.outs)
 	violate := func(sig, what string) {
 		n++
-		c.Violate(sig, what, w)
+		r.violate(sig, what, w)
 	}
 	if len(o.outs) != len(ins) {
 		violate("count", fmt.Sprintf("fuse emitted %d values for %d input values (types %s)", len(o.outs), len(ins), typeList(inTypes)))
@@ -228,12 +268,12 @@ func (e *env) oracle(ins []input, inTypes []zed.Type, o *observation, w witness)
 	}
 	// lossless and in order: out[i] carries exactly the leaves of in[i]
 	for i := range o.outs {
-		inLeaves, inShape := leavesOf(ins[i].val)
+		inLeaves, inShape, inSets := leavesOfAs(ins[i].val, nil)
 		if !equalStrings(inLeaves, ins[i].leaves) {
-			c.Inconclusive("harness: generator and walker disagree on the leaves of %s: %v vs %v", zson.FormatValue(ins[i].val), ins[i].leaves, inLeaves)
+			r.inconclusive("harness: generator and walker disagree on the leaves of %s: %v vs %v", zson.FormatValue(ins[i].val), ins[i].leaves, inLeaves)
 			return n
 		}
-		outLeaves, outShape := leavesOf(o.outs[i])
+		outLeaves, outShape, _ := leavesOfAs(o.outs[i], inSets)
 		if !equalStrings(inLeaves, outLeaves) {
 			lost, extra := diffStrings(inLeaves, outLeaves, 3)
 			inT := ins[i].val.Type()
@@ -246,7 +286,7 @@ func (e *env) oracle(ins []input, inTypes []zed.Type, o *observation, w witness)
 			break
 		}
 		if !equalStrings(inShape, outShape) {
-			c.Drift("structure: input %s became %s (same leaves, different empty containers/records)", zson.FormatValue(ins[i].val), zson.FormatValue(o.outs[i]))
+			r.drift("structure: input %s became %s (same leaves, different empty containers/records)", zson.FormatValue(ins[i].val), zson.FormatValue(o.outs[i]))
 		}
 	}
 	return n
@@ -268,15 +308,17 @@ func typeList(types []zed.Type) string {
 	return strings.Join(s, " ")
 }
 
-// checkCase replays one TLC case on the real code.
-func (e *env) checkCase(tc *typeCase, seed int64, mems []int) error {
-	c := e.c
+// checkCase replays one TLC case on the real code and returns its report.
+// wantSpills is the number of runs of this case in which the spec says the
+// Fuser creates a spill file.
+func (e *env) checkCase(tc *typeCase, idx int, seed int64, mems []int) (r *report, wantSpills int64, err error) {
+	r = &report{}
 	zctx := zed.NewContext()
 	var inTypes []zed.Type
 	for i := range tc.Ins {
 		t, err := toType(zctx, &tc.Ins[i])
 		if err != nil {
-			return err
+			return r, 0, err
 		}
 		inTypes = append(inTypes, t)
 	}
@@ -294,9 +336,9 @@ func (e *env) checkCase(tc *typeCase, seed int64, mems []int) error {
 		if err != nil {
 			var pe *os.PathError
 			if errors.As(err, &pe) || errors.Is(err, context.DeadlineExceeded) {
-				return err
+				return r, wantSpills, err
 			}
-			c.Violate("query-error", fmt.Sprintf("fuse over values of types %s fails: %v", typeList(inTypes), err), w)
+			r.violate("query-error", fmt.Sprintf("fuse over values of types %s fails: %v", typeList(inTypes), err), w)
 			continue
 		}
 		nontrivial := false
@@ -305,35 +347,34 @@ func (e *env) checkCase(tc *typeCase, seed int64, mems []int) error {
 				nontrivial = true
 			}
 		}
-		wantSpill := mem <= 1 && anyBytes
-		if (o.spills > 0) != wantSpill {
-			c.Drift("spill: %s with MemMaxBytes=%d: hook fired %d times, spec says spill=%v", tc.key(), mem, o.spills, wantSpill)
+		// Fuser.stash: the spill file is created by the first Write that brings nbytes to memMaxBytes
+		if mem <= 1 && anyBytes {
+			wantSpills++
+		} else if mem <= 1 {
+			nontrivial = false
 		}
-		if mem <= 1 {
-			c.Add("spilled_runs", o.spills)
-			nontrivial = nontrivial && o.spills > 0
-		}
-		c.Eval(fmt.Sprintf("types|%s|%d|%d", tc.key(), seed, mem), nontrivial)
-		nviol := e.oracle(ins, inTypes, o, w)
-		e.bind(zctx, tc, ins, o, nviol)
+		r.eval(fmt.Sprintf("types|%s|%d|%d", tc.key(), seed, mem), nontrivial)
+		before := r.nviol
+		e.oracle(r, ins, inTypes, o, w)
+		e.bind(r, zctx, tc, ins, o, r.nviol-before)
 		if first == nil {
 			first = o
 		} else if len(first.outs) == len(o.outs) {
 			for i := range o.outs {
 				if first.outs[i].Type() != o.outs[i].Type() || string(first.outs[i].Bytes()) != string(o.outs[i].Bytes()) ||
 					(first.outs[i].Bytes() == nil) != (o.outs[i].Bytes() == nil) {
-					c.Violate("spill-differs", fmt.Sprintf("output %d of fuse over types %s is %s with MemMaxBytes=%d but %s with MemMaxBytes=%d",
+					r.violate("spill-differs", fmt.Sprintf("output %d of fuse over types %s is %s with MemMaxBytes=%d but %s with MemMaxBytes=%d",
 						i, typeList(inTypes), zson.FormatValue(first.outs[i]), mems[0], zson.FormatValue(o.outs[i]), mem), w)
 					break
 				}
 			}
 		}
 	}
-	if first != nil && c.Count("evaluations")%1500 < int64(len(mems)) {
-		c.Sample(map[string]any{"types": tc.key(), "spec_fused": tc.Fused.String(), "spec_taint": tc.Taint,
+	if first != nil && idx%1000 == 7 {
+		r.sample(map[string]any{"types": tc.key(), "spec_fused": tc.Fused.String(), "spec_taint": tc.Taint,
 			"real_fused": zson.FormatType(first.aggType), "inputs": formatInputs(ins), "outputs": formatAll(first.outs)})
 	}
-	return nil
+	return r, wantSpills, nil
 }
 
 func formatInputs(ins []input) []string {
@@ -346,17 +387,16 @@ func formatInputs(ins []input) []string {
 
 // bind compares the spec's predictions with the real run.  A disagreement is
 // drift of the transcription, never a verdict.
-func (e *env) bind(zctx *zed.Context, tc *typeCase, ins []input, o *observation, nviol int) {
-	c := e.c
+func (e *env) bind(r *report, zctx *zed.Context, tc *typeCase, ins []input, o *observation, nviol int) {
 	predFused, err := toType(zctx, &tc.Fused)
 	if err != nil {
-		c.Inconclusive("harness: predicted fused type of %s: %v", tc.key(), err)
+		r.inconclusive("harness: predicted fused type of %s: %v", tc.key(), err)
 		return
 	}
 	ok := true
 	if predFused != o.aggType {
 		ok = false
-		c.Drift("fused type: %s: spec %s real %s", tc.key(), tc.Fused.String(), zson.FormatType(o.aggType))
+		r.drift("fused type: %s: spec %s real %s", tc.key(), tc.Fused.String(), zson.FormatType(o.aggType))
 	}
 	if len(o.outs) == len(ins) {
 		for i := range ins {
@@ -364,18 +404,18 @@ func (e *env) bind(zctx *zed.Context, tc *typeCase, ins []input, o *observation,
 			if !ins[i].val.IsNull() {
 				pred, err = toType(zctx, &tc.Outs[ins[i].typeIx])
 				if err != nil {
-					c.Inconclusive("harness: predicted output type of %s: %v", tc.key(), err)
+					r.inconclusive("harness: predicted output type of %s: %v", tc.key(), err)
 					return
 				}
 			}
 			if pred == nil {
 				if !o.outs[i].IsError() {
 					ok = false
-					c.Drift("output type: %s: spec predicts an error value for %s, real output %s", tc.key(), zson.FormatValue(ins[i].val), zson.FormatValue(o.outs[i]))
+					r.drift("output type: %s: spec predicts an error value for %s, real output %s", tc.key(), zson.FormatValue(ins[i].val), zson.FormatValue(o.outs[i]))
 				}
 			} else if o.outs[i].Type() != pred {
 				ok = false
-				c.Drift("output type: %s: spec predicts %s for %s, real output %s", tc.key(), zson.FormatType(pred), zson.FormatValue(ins[i].val), zson.FormatValue(o.outs[i]))
+				r.drift("output type: %s: spec predicts %s for %s, real output %s", tc.key(), zson.FormatType(pred), zson.FormatValue(ins[i].val), zson.FormatValue(o.outs[i]))
 			}
 		}
 	}
@@ -383,11 +423,11 @@ func (e *env) bind(zctx *zed.Context, tc *typeCase, ins []input, o *observation,
 	specClean := tc.WF && tc.Uniform && tc.Lossless
 	if specClean != (nviol == 0) {
 		ok = false
-		c.Drift("verdict: %s: spec says wf=%v uniform=%v lossless=%v taint=%v, the oracle reported %d violations on the real run",
+		r.drift("verdict: %s: spec says wf=%v uniform=%v lossless=%v taint=%v, the oracle reported %d violations on the real run",
 			tc.key(), tc.WF, tc.Uniform, tc.Lossless, tc.Taint, nviol)
 	}
 	if ok {
-		c.Add("predictions_confirmed", 1)
+		r.add("predictions_confirmed", 1)
 	}
 }
 
@@ -409,6 +449,13 @@ func run(c *core.Ctx) error {
 	if c.Replay != "" {
 		return e.replay()
 	}
+	if f := os.Getenv("C20_CPUPROFILE"); f != "" {
+		pf, _ := os.Create(f)
+		defer pf.Close()
+		defer func() { pprof.StopCPUProfile() }()
+		defer func() {}()
+		startProfile = func() { pprof.StartCPUProfile(pf) }
+	}
 	cases, spillCases, err := e.runTLC()
 	if err != nil || cases == nil {
 		return err
@@ -425,14 +472,49 @@ func run(c *core.Ctx) error {
 	c.Set("spec_tainted_cases", tainted)
 	c.Logf("TLC exported %d type cases (%v on a defect path) and %d Fuser cases", len(cases), tainted, len(spillCases))
 
-	mems := []int{e.defMem, 1}
-	for i := range cases {
-		if err := e.checkCase(&cases[i], c.Seed*1000003+int64(i), mems); err != nil {
-			return fmt.Errorf("case %s: %w", cases[i].key(), err)
+	startProfile()
+	// Replay the type cases on several goroutines; flush the reports in case order.
+	type caseResult struct {
+		r          *report
+		wantSpills int64
+		err        error
+	}
+	results := make([]caseResult, len(cases))
+	next := atomic.Int64{}
+	var wg sync.WaitGroup
+	spillsBefore := e.spills.Load()
+	for w := 0; w < 8; w++ {
+		wg.Add(1)
+		go func() {
+			defer wg.Done()
+			for {
+				i := int(next.Add(1)) - 1
+				if i >= len(cases) {
+					return
+				}
+				mems := []int{e.defMem}
+				// quick: every case with the default limit, one in three also through the spill file
+				if !c.Quick() || (int64(i)+c.Seed)%3 == 0 {
+					mems = append(mems, 1)
+				}
+				res := &results[i]
+				res.r, res.wantSpills, res.err = e.checkCase(&cases[i], i, c.Seed*1000003+int64(i), mems)
+			}
+		}()
+	}
+	wg.Wait()
+	var wantSpills int64
+	for i := range results {
+		if results[i].err != nil {
+			return fmt.Errorf("case %s: %w", cases[i].key(), results[i].err)
 		}
-		if i > 0 && i%5000 == 0 {
-			c.Logf("%d/%d type cases replayed, %d evaluations", i, len(cases), c.Count("evaluations"))
-		}
+		results[i].r.flush(c)
+		wantSpills += results[i].wantSpills
+	}
+	gotSpills := e.spills.Load() - spillsBefore
+	c.Add("spilled_runs", gotSpills)
+	if gotSpills != wantSpills {
+		c.Drift("spill: the spec (SpillIndex) says %d of the runs with MemMaxBytes=1 create a spill file, the hook fuse.Fuser.spill fired %d times", wantSpills, gotSpills)
 	}
 	c.Add("traces_validated_against_impl", int64(len(cases)))
 	c.Logf("type cases replayed: %d evaluations, %d predictions confirmed, %d drift", c.Count("evaluations"), c.Count("predictions_confirmed"), c.Count("drift_count"))
@@ -452,6 +534,8 @@ func workers(shard int) int {
 	}
 	return 1
 }
+
+var startProfile = func() {}
 
 var reMaxLen = regexp.MustCompile(`\n  MaxLen = \d+`)
 
@@ -546,7 +630,9 @@ func (e *env) replay() error {
 			return nil
 		}
 		fmt.Printf("input:   %s\nfuse:    %s\nfuse():  %s\n", strings.Join(formatInputs(ins), " "), strings.Join(formatAll(o.outs), " "), zson.FormatType(o.aggType))
-		e.oracle(ins, inTypes, o, witness{Kind: "types", Ins: w.Ins, Seed: w.Seed, Mem: w.Mem})
+		r := &report{}
+		e.oracle(r, ins, inTypes, o, witness{Kind: "types", Ins: w.Ins, Seed: w.Seed, Mem: w.Mem})
+		r.flush(e.c)
 	}
 	return nil
 }
